@@ -120,6 +120,9 @@ class FnInfo(object):
                 out.append(("self", None))
             elif cn[:1] in "LNDS" and cn[1:] in byname:
                 out.append(({"L": "len_trim", "N": "len", "D": "context", "S": "size"}[cn[0]], byname[cn[1:]]))
+            elif cn.startswith("SHcfi_") and "CFI_cdesc_t" in cty:
+                # Fortran 2018 C descriptor (F_CFI): the argument's address and its length travel together
+                out.append(("cfi", byname[cn[6:]]) if cn[6:] in byname else ("res_cfi", None))
             else:
                 out.append(None)
                 unmatched.append(k)
@@ -453,6 +456,19 @@ class WrapperHarness(object):
         if self.module is None:
             raise Unsupported("no IR for %s" % self.cname)
 
+    def uses_cfi_allocate(self):
+        """does the wrapper allocate its result through the descriptor (deferred-length allocatable result)?"""
+        return self.source_mentions("CFI_allocate")
+
+    def source_mentions(self, word):
+        for n, t in self.build.files.items():
+            if not n.endswith((".c", ".cpp")):
+                continue
+            m = re.search(r"(?ms)^[^\n]*\b%s\([^)]*\)\s*\{(.*?)^\}" % re.escape(self.cname), t)
+            if m and word in m.group(1):
+                return True
+        return False
+
     def unsupported_reason(self):
         info = self.info
         for p in info.params + ([info.result] if info.result else []):
@@ -480,6 +496,28 @@ class WrapperHarness(object):
         N = self.cap
         roles = info.roles()
         fn = self.module.functions[self.cname]
+        h = self
+
+        def cfi_allocate(ex_, name, a, at, rt):
+            """CFI_allocate(desc, lower, upper, elem_len) for a character scalar: storage of elem_len bytes (success only)"""
+            desc = a[0]
+            hit = [v for (kk, key_), v in h.inp.items() if kk == "cfi" and v[0] is desc.obj]
+            if not hit:
+                raise Unsupported("CFI_allocate on a descriptor the harness did not make")
+            d_, st_, _alloc = hit[0]
+            cur = ex_.load_ptr(Ptr(d_, ir.field_offset(st_, 0)))
+            if isinstance(cur, Ptr) and cur.obj is not None:
+                # ISO_Fortran_binding: base_addr must be a null pointer
+                return z3.BitVecVal(2, 32)
+            n_ = a[3]
+            o_ = ex_.new_obj("cfi_allocated", n_ if conc(n_) is None else conc(n_), "heap", "cfi")
+            ex_.events.append(("alloc", "cfi", o_))
+            ex_.store_ptr(Ptr(d_, ir.field_offset(st_, 0)), Ptr(o_, 0))
+            ex_.store_int(Ptr(d_, ir.field_offset(st_, 1)), n_, 64)
+            h.cfi_allocated = (o_, n_)
+            return z3.BitVecVal(0, 32)
+        ex.stubs["CFI_allocate"] = cfi_allocate
+        self.cfi_allocated = None
         self.inp = {}
         argv = []
         lens = {}
@@ -529,6 +567,34 @@ class WrapperHarness(object):
                 cap_o.cells[8] = (4, idt)
                 self.inp[("capsule", key)] = (cap_o, inst, idt)
                 argv.append(Ptr(cap_o, 0))
+                continue
+            if role in ("cfi", "res_cfi"):
+                # descriptor {base_addr, elem_len, ...}: a character scalar of symbolic length 0..N
+                st = ir.resolve(rt_.to)
+                n = z3.BitVec("len_%s" % key, 64)
+                e.assume(z3.ULE(n, N))
+                lens[("len", key)] = n
+                if role == "res_cfi" and info.result is not None and info.result.kind() == "scalar":
+                    e.assume(n != 0)        # a Fortran character function result has length >= 1
+                buf = lc.sym_buffer(ex, ("buf_" + key) if role == "cfi" else "result_buf", n)
+                desc = lc.sym_buffer(ex, "cfi_" + key, ir.size_of(st), "heap")
+                alloc_result = role == "res_cfi" and self.uses_cfi_allocate()
+                desc.cells[ir.field_offset(st, 0)] = (8, NULL if alloc_result else Ptr(buf, 0))
+                desc.cells[ir.field_offset(st, 1)] = (8, n)
+                self.inp[("cfi", key)] = (desc, st, alloc_result)
+                if not alloc_result:
+                    self.inp[("buf", key)] = (buf, buf.arr)
+                if role == "cfi" and p.intent in ("in", "inout"):
+                    # what the library is documented to see is the text without trailing blanks: LEN_TRIM by its definition
+                    lt = z3.BitVec("spec_len_trim_%s" % key, 64)
+                    cons = [z3.ULE(lt, n)]
+                    for j in range(N + 1):
+                        J = z3.BitVecVal(j, 64)
+                        cons.append(z3.Implies(z3.And(z3.UGE(J, lt), z3.ULT(J, n)), z3.Select(buf.arr, J) == BLANK))
+                    cons.append(z3.Implies(lt != 0, z3.Select(buf.arr, lt - 1) != BLANK))
+                    e.assume(z3.And(cons))
+                    lens[("len_trim", key)] = lt
+                argv.append(Ptr(desc, 0))
                 continue
             if role == "res_buf":
                 n = lens.get(("len", "@result"))
@@ -711,6 +777,23 @@ class WrapperHarness(object):
                         exp = z3.If(z3.ULT(i, r.reply_len), z3.Select(r.reply_arr, i), z3.BitVecVal(0, 8))
                         out.append(("argument '%s': the caller's buffer does not hold the library's C string" % key,
                                     z3.And(z3.ULE(i, r.reply_len), z3.Select(o.arr, i) != exp)))
+        if info.generated == "arg_to_cfi":
+            for (role, p_) in info.roles():
+                if role == "arg" and p_ is not None and p_.kind() in ("charp", "string"):
+                    out.append(("argument '%s' reaches the CFI entry point as a bare address: the Fortran caller passes an assumed-length "
+                                "character there, without a NUL and without its length" % p_.name, True))
+        rcfi = self.inp.get(("cfi", "@result"))
+        if rcfi is not None and rcfi[2] and info.result is not None and info.result.kind() in ("charp", "string") and not rinfo.get("null"):
+            d_, st_, _ = rcfi
+            base = ex.load_ptr(Ptr(d_, ir.field_offset(st_, 0)))
+            el = ex.load_int(Ptr(d_, ir.field_offset(st_, 1)), 64)
+            if not (isinstance(base, Ptr) and base.obj is not None and self.cfi_allocated is not None and base.obj is self.cfi_allocated[0]):
+                out.append(("allocatable result: the descriptor does not hold storage allocated with CFI_allocate", True))
+            else:
+                ex.flush(base.obj)
+                out.append(("allocatable result: the character length is not the length of the library's text", el != rinfo["len"]))
+                out.append(("allocatable result: the allocated character does not hold the library's text",
+                            z3.And(z3.ULT(i, rinfo["len"]), z3.Select(base.obj.arr, i) != z3.Select(rinfo["arr"], i))))
         # result
         rp = info.result
         if rp is not None:
@@ -794,7 +877,7 @@ class WrapperHarness(object):
                         else:
                             out.append(("class result owned by the library has a non-zero idtor (the wrapper would free library memory)", idt != 0))
                         self.handoff = (lc_conc(idt), rinfo.get("owner"), rp.tname)
-            elif kind in ("charp",) and rb is None and ctx is None:
+            elif kind in ("charp",) and rb is None and ctx is None and rcfi is None:
                 # plain C API returning const char *
                 if rinfo.get("null"):
                     out.append(("NULL result is not returned as NULL", not (isinstance(self.ret, Ptr) and self.ret.obj is None)))
@@ -845,7 +928,9 @@ class WrapperHarness(object):
         out = []
         handed = set()
         for (kind, key), o in list(self.inp.items()):
-            if kind == "context" or (kind == "capsule" and key == "@result"):
+            if kind == "cfi":
+                o = o[0]        # what CFI_allocate put into the caller's descriptor is the caller's
+            if kind in ("context", "cfi") or (kind == "capsule" and key == "@result"):
                 for off, (nb, val) in o.cells.items():
                     if isinstance(val, Ptr) and val.obj is not None:
                         handed.add(val.obj.id)
@@ -1016,6 +1101,9 @@ def symbol_mismatch(info, sym):
         g = got.replace(" const", "").replace("const ", "").strip()
         if p.kind() == "scalar" and p.cxx_type in NATIVE_TEXT and g != p.cxx_type:
             return "parameter '%s' of the called overload %s is %s, declared %s" % (p.name, dem, got, p.cxx_type)
+        if p.kind() == "string" and (p.ref or p.nptr) and ("const" in got) != p.const:
+            # two overloads that differ in the const-ness of a std::string reference / pointer are different functions
+            return "parameter '%s' of the called overload %s is %s, the declaration says %sconst" % (p.name, dem, got, "" if p.const else "not ")
     return None
 
 
